@@ -130,6 +130,17 @@ PROPS = {
         ],
         "disabled": "generated check for C08 not built yet; only regression cases exist",
     },
+    "C11": {
+        "level": "exploration", "sim": True,
+        "technique": "property-based testing (rapid): generated hook status values, stale/replaced parents and faults injected on the status write; oracle = parent object diff per accepted write + expected status recomputed from the hook exchange",
+        "level_text": "status writes are judged per request against the simulator's pre/post state (only .status may change, only through the status endpoint, never on a replaced parent) and the final status is compared with hook status + generation of the parent JSON that went to the hook",
+        "rule": ("rapid-generated cases: hook status mode (null, empty, nested, own conditions, own observedGeneration) x 2-5 syncs, each preceded by a live-parent change (spec edit, delete+recreate, status overwritten by someone) "
+                 "with a possibly stale parent cache, and one fault (real conflict / parent deleted / parent replaced / 500 at the status PUT, 500 at a child write); non-trivial = a status write was attempted; distinct = distinct choice sequences"),
+        "jobs": [
+            {"name": "c11-composite", "pkg": COMPOSITE, "tests": ["TestVerifC11Composite"],
+             "checks": {"quick": 4000, "thorough": 200000}, "shards": {"quick": 8, "thorough": 12}},
+        ],
+    },
     "C13": {
         "level": "exploration", "sim": True,
         "technique": "property-based testing: grammar-generated malformed hook responses + native go fuzzing; oracle = no panic and no child write on a rejected response",
